@@ -236,3 +236,46 @@ def r17a(ctx):
                 if ast.unparse(pref) == "self._name" and len(k.elts) == 2 and ast.unparse(k.elts[1]) == pos and ast.unparse(st.value) == key:
                     good = True
     (ctx.ok if good else ctx.bad)("io.io.FromGraph._layer:alias", fg.module.loc(ly), "(self._name, i) -> i-th imported key" if good else "FromGraph._layer no longer aliases (self._name, i) to the i-th key of the imported graph")
+
+
+@rule(
+    "R18d",
+    ["C18"],
+    """READER OPTION AGREEMENT: read_parquet hands the user's options to one of two sibling reader classes (fsspec / arrow
+    filesystem). An option that is forwarded to a reader class must be read by name somewhere in that class (self.p /
+    self.operand('p'), following properties) - otherwise it has to be refused in read_parquet like the other options that
+    reader does not support. An option one reader honours and the other silently drops makes the two implementations
+    return different frames for the same call.""",
+)
+def r18d(ctx):
+    from sa.rules.util import bind_call, ctor_target, reads_of_self
+
+    model = ctx.model
+    mod, fn = model.func("_collection", "read_parquet")
+    api_params = {a.arg for a in fn.args.args + fn.args.kwonlyargs}
+    core = model.core_expr
+    n = 0
+    for c in (x for x in ast.walk(fn) if isinstance(x, ast.Call)):
+        r = ctor_target(model, mod, None, c)
+        if r is None:
+            continue
+        K = r[0]
+        reads = set()
+        for k in K.mro:
+            if isinstance(k, str) or k is core:
+                continue
+            for name, mem in k.members.items():
+                if isinstance(mem.node, ast.FunctionDef):
+                    reads |= reads_of_self(model, K, mem.node, depth=0)
+        b = bind_call(model, K, c)
+        for p, v in sorted(b.args.items()):
+            used = {x.id for x in ast.walk(v) if isinstance(x, ast.Name)} & api_params
+            if not used:
+                continue
+            n += 1
+            cid = f"_collection.read_parquet->{K.name}:{p}"
+            if p in reads:
+                ctx.ok(cid, mod.loc(c), "option read by the reader")
+            else:
+                ctx.bad(cid, mod.loc(c), f"read_parquet forwards the user's `{'/'.join(sorted(used))}` to {K.name}.{p}, which no method of {K.name} reads: the option is silently ignored by this reader while its sibling honours it")
+    ctx.floor("reader options forwarded by read_parquet", n, 20)
